@@ -236,7 +236,7 @@ def check(ctx):
             continue
         seen.add(key)
         ctx.check(ok, "R02.3", "%s/bb%d/%s-carries-own-state" % (fid.split(" as ")[0].split("::")[-1].strip("<>") if " as " in fid else fid.split("::")[-1], c[4][1], short(c, 1).split("(")[0]),
-                  detail, ctx.F.fns[c[4][0]].blocks[c[4][1]]["term"]["span"]["at"],
+                  detail, ctx.F.fns[c[4][-2]].blocks[c[4][-1]]["term"]["span"]["at"],
                   bad_detail="%s in %s is built with %s, which is not the state value the instruction was given" % (short(c, 1).split("(")[0], fid, detail))
     ctx.floor("R02.3", len(seen), 10, "Error::fatal / Error::recoverable construction sites in instruction bodies")
     # ---- R02.4 ----------------------------------------------------------------------------
